@@ -188,7 +188,7 @@ impl Outcome {
 pub fn submit(sim: &mut Sim, validator: &TransactionValidator, raw: &RawNotarizedTransaction) -> (Outcome, Option<TransactionReceipt>) {
     let validated = match mc_core::catch(|| raw.validate(validator)) {
         Err(p) => return (Outcome::Panicked(format!("validation: {p} @ {}", mc_core::last_panic_location())), None),
-        Ok(Err(e)) => return (Outcome::Invalid(variant_path(&format!("{e:?}"), 4)), None),
+        Ok(Err(e)) => return (Outcome::Invalid(error_label(&format!("{e:?}"))), None),
         Ok(Ok(v)) => v,
     };
     let executable = validated.create_executable();
@@ -211,6 +211,16 @@ pub fn submit_executable(sim: &mut Sim, executable: ExecutableTransaction) -> (O
             (o, Some(receipt))
         }
     }
+}
+
+/// Last two variant names of a Debug-rendered validation error (hashes and numbers dropped).
+pub fn error_label(dbg: &str) -> String {
+    let words: Vec<&str> = dbg
+        .split(|c: char| !(c.is_ascii_alphanumeric() || c == '_'))
+        .filter(|w| w.chars().next().map_or(false, |c| c.is_ascii_uppercase()) && !(w.len() >= 32 && w.chars().all(|c| c.is_ascii_hexdigit())))
+        .collect();
+    let n = words.len();
+    words[n.saturating_sub(2)..].join(":")
 }
 
 pub fn sim_from(snap: &Snap) -> Sim {
